@@ -7,6 +7,11 @@
  * call succeeds and the history ends in the same state as the fault-free
  * run, and after the free functions nothing remains allocated.
  */
+/* the harness' own allocations are not library allocations: undo the -Dmalloc=... renaming here */
+#undef malloc
+#undef calloc
+#undef realloc
+#undef strdup
 #ifdef S_VNADATA
 #include "vnadata/wf_vnadata.h"
 #else
@@ -72,6 +77,9 @@ void h_script_vnadata(void)
     STEP_INT("set_all_z0", vnadata_set_all_z0(vdp, (cell_t)z), wf_vnadata(vdip));
     STEP_INT("resize shrink", vnadata_resize(vdp, VPT_UNDEF, 1, 2, 1), wf_vnadata(vdip));
     REACH("script finished");
+#if VERIF_FAIL_AT > 0
+    CHECK(verif_alloc_failed, "infra: the injected fault was never reached (vacuous run)");
+#endif
     /* same final state as the fault-free run */
     CHECK(vdp->vd_rows == 1 && vdp->vd_columns == 2 && vdp->vd_frequencies == 1 &&
 	    vdp->vd_type == VPT_UNDEF && !vnadata_has_fz0(vdp),
@@ -160,6 +168,9 @@ void h_script_vnacal(void)
     STEP_H("make_correlated", p_corr, vnacal_make_correlated_parameter(vcp, p_scalar, fv, 2, sv));
 #endif
     REACH("script finished");
+#if VERIF_FAIL_AT > 0
+    CHECK(verif_alloc_failed, "infra: the injected fault was never reached (vacuous run)");
+#endif
     CHECK(p_scalar == 3 && p_vector == 4 && p_unknown == 5,
 	    "handles equal those of the fault-free history");
     (void)p_corr; (void)sv;
@@ -226,6 +237,9 @@ void h_script_vnacal_new(void)
 	}
     }
     REACH("script finished");
+#if VERIF_FAIL_AT > 0
+    CHECK(verif_alloc_failed, "infra: the injected fault was never reached (vacuous run)");
+#endif
     CHECK(vnp->vn_measurement_count == 1 && vnp->vn_equations >= 1,
 	    "final state equals that of the fault-free history");
 #if VERIF_FAIL_AT == 0 && !defined(VERIF_NATIVE)
@@ -288,6 +302,9 @@ void h_script_addcal(void)
 	CHECK(rc != -1, "grow: repeating succeeds");
     }
     REACH("script finished");
+#if VERIF_FAIL_AT > 0
+    CHECK(verif_alloc_failed, "infra: the injected fault was never reached (vacuous run)");
+#endif
     CHECK(rc == 1 && vcp->vc_calibration_allocation == 8 && vcp->vc_calibration_vector[1] == c2 && wf_caltable(vcp),
 	    "final table equals that of the fault-free history");
 #if VERIF_FAIL_AT == 0 && !defined(VERIF_NATIVE)
